@@ -22,6 +22,6 @@ structure DLog (s : Nat) (st : Stream) (cl : Client) : Prop where
 
 /-- `DLog` under the premises of `DUseP` -/
 def DLogP (s : Nat) (st : Stream) (cl : Client) : Prop :=
-  st.cam.emptyEvery = 0 → cl.misused = false → DLog s st cl
+  Here st → cl.misused = false → DLog s st cl
 
 end AcqVerif.Runtime
